@@ -2009,6 +2009,14 @@ def eval_term(t, valuation):
             return a[0] & a[1]
         if o == "shr":
             return a[0] >> a[1]
+        if o in ("LShift", "shl"):
+            return a[0] << a[1]
+        if o == "call" and a and a[0] == "abs" and len(a) == 2:
+            return abs(a[1])
+        if o == "call" and a and a[0] in ("int", "long") and len(a) == 2:
+            return int(a[1])
+        if o == "RShift":
+            return a[0] >> a[1]
         if o == "mul":
             return a[0] * a[1]
         if o == "add":
